@@ -42,7 +42,16 @@ CLAIMED["C18"] = dict(
     note="Trusts ASan/UBSan to expose accesses outside allocated buffers; libpng/zlib internals are real but their own allocations are outside the ledger; "
          "the reference JCF reader is 30 lines written from the format description in io.h.")
 
-NOT_BUILT = {p: "not claimed at this commit: the simulation engine for this property is still under construction (see DESIGN.md section 11)" for p in ["C10", "C11", "C12", "C14", "C15", "C16"]}
+CLAIMED["C14"] = dict(
+    engine="alloc", level="exploration", design_ref="DESIGN.md section 3, C14",
+    technique="deterministic simulation: seeded allocation histories against a reference model on a simulated heap that recycles blocks immediately and hands them out dirty; ledger of every library allocation",
+    text="Seeded histories (20-3000 steps) of init / init_window / free / fill / arithmetic touch / fini+init, steered through the mechanisms (exact-size cache hits, >=17 distinct sizes, "
+         "sizes around the cache threshold with the L3 knob drawn small, 64/128/1024+ live headers and back in random order), in four build variants and two flavours (ASan+UBSan; plain with an "
+         "exact-size recycling, dirtying allocator). After every step: fresh matrix zero in every word of its allocation, storage disjoint from every live object, headers and contents equal to the model, "
+         "no invalid/double free, windows never release data; at quiescence at most 16 blocks retained, after m4ri_fini() none.",
+    note="Sampling over histories (a clean batch is evidence, not proof). The model is ~150 lines; content is compared completely every 64 steps and at the end, 6 random owners after each step.")
+
+NOT_BUILT = {p: "not claimed at this commit: the simulation engine for this property is still under construction (see DESIGN.md section 11)" for p in ["C10", "C11", "C12", "C15", "C16"]}
 
 
 def main():
@@ -68,6 +77,7 @@ def main():
                    baseline_off_cmd="cd /repo && make check", source_commits=[], add_only=True),
         engines=[
             dict(name="oom", path="sim/eng/oom.c", serves_properties=["C20"], kind_free_text="allocation-failure enumeration in forked children over the simulated heap"),
+            dict(name="alloc", path="sim/eng/alloc.c", serves_properties=["C14"], kind_free_text="allocation histories against a reference model over the simulated (recycling, dirtying) heap"),
             dict(name="fs", path="sim/eng/fs.c", serves_properties=["C18"], kind_free_text="simulated file system and clock under the real PNG/JCF readers and writers; fault enumeration in forked children"),
         ],
         checks=checks,
